@@ -14,7 +14,8 @@ import regex
 # The string the real code hashes is `remove_context("", ast.dump(node))`; this is an independent copy
 # of that regular expression (if the implementation changes its notion of identity, model and
 # implementation disagree and the specification decides).
-REMOVE_CONTEXT = regex.compile(r", ctx=.+?\(\)").sub
+# Since fix a00cdad (finding F15b) the pattern skips the quoted literals of the dump.
+REMOVE_CONTEXT = regex.compile(r"""(?:'(?:[^'\\]|\\.)*'|"(?:[^"\\]|\\.)*")(*SKIP)(*FAIL)|, ctx=\w+\(\)""").sub
 
 
 def batch(drv, reqs):
